@@ -99,6 +99,14 @@ impl DiscriminantType {
 
             for variant in data.variants.iter() {
                 if let Some((_, exp)) = variant.discriminant.as_ref() {
+                    // a discriminant which comes from a `$d:expr` fragment of a `macro_rules!` macro is
+                    // wrapped in an invisible group
+                    let mut exp = exp;
+
+                    while let Expr::Group(group) = exp {
+                        exp = group.expr.as_ref();
+                    }
+
                     match exp {
                         Expr::Lit(lit) => {
                             if let Lit::Int(lit) = &lit.lit {
